@@ -131,7 +131,7 @@ pub fn value_text(rng: &mut Rng, spec: &CharacterDataSpec, version: AutosarVersi
             pad(rng, v.to_string())
         }
         CharacterDataSpec::String { preserve_whitespace, max_length } => {
-            let pool = ["x", "hello world", "a&b", "1 < 2 > 0", "say \"hi\"", "it's", "tab\there", "line1\nline2", "\u{e4}\u{f6}\u{20ac}", "&amp;", "&#65;", "]]>", "a  b", "<!-- no comment -->", "%s"];
+            let pool = ["x", "hello world", "a&b", "1 < 2 > 0", "say \"hi\"", "it's", "tab\there", "line1\nline2", "\u{e4}\u{f6}\u{20ac}", "&amp;", "&#65;", "]]>", "a  b", "<!-- no comment -->", "%s", "\u{a0}nbsp first", "ideographic space last\u{3000}", "\u{2003}em spaces around\u{2003}", "next line\u{85}"];
             let s = (*rng.pick(&pool)).to_string();
             if max_length.is_some_and(|m| s.len() + 4 > m) {
                 "x".to_string()
